@@ -856,6 +856,13 @@ func (p *partition) becomeLeader(epoch uint64) error {
 		}
 	}
 
+	// Reset the latest offsets tracked for the ISR. Offsets recorded while
+	// leading in a previous epoch are stale since the replicas, including this
+	// one, may have truncated their logs in the meantime.
+	for id := range p.isr {
+		p.isr[id] = &replica{offset: -1}
+	}
+
 	// Update this replica's latest offset to ensure it's up to date.
 	rep, ok := p.isr[p.srv.config.Clustering.ServerID]
 	if !ok {
